@@ -490,8 +490,12 @@ def r4_eq(repo, rep, cls):
   rets = [s for s in walk_no_nested(f.node) if isinstance(s, ast.Return) and s.value is not None]
   final = [r for r in rets if not au.const(r.value)[0]]
   good = False
+  ectx = FuncCtx.of(f)
   for r in final:
     c = r.value
+    at_ = ectx.node_at(r)
+    if at_ is not None:
+      c = ectx.rd.expand(at_, c, keep=(a, b))[0]          # as_dict = dataclasses.asdict; as_dict(self) == as_dict(other)
     if isinstance(c, ast.BoolOp) and isinstance(c.op, ast.Or):
       # `self is other or <field comparison>`: identical objects have equal fields
       rest = [v for v in c.values if not (isinstance(v, ast.Compare) and len(v.ops) == 1 and isinstance(v.ops[0], ast.Is)
@@ -502,8 +506,10 @@ def r4_eq(repo, rep, cls):
       l, rr = norm(c.left), norm(c.comparators[0])
       if {l, rr} == {'dataclasses.asdict(%s)' % a, 'dataclasses.asdict(%s)' % b}:
         good = True
-  rep.check(good, 'R4/eq', '__eq__ compares asdict() of both operands', f.qualname, '; '.join(norm(r) for r in final)[:120],
-            '__eq__ does not compare the field values of both operands (%s)' % '; '.join(norm(r) for r in final)[:120], f.loc())
+  closed_ = all(not au.aliens(ectx.rd.expand(ectx.node_at(r), r.value, keep=(a, b))[0], {a, b}) for r in final if ectx.node_at(r) is not None)
+  rep.check3(True if good else (False if closed_ else None), 'R4/eq', '__eq__ compares asdict() of both operands', f.qualname, '; '.join(norm(r) for r in final)[:120],
+             '__eq__ does not compare the field values of both operands (%s)' % '; '.join(norm(r) for r in final)[:120], f.loc(),
+             why_open='the returned comparison reads names that are not resolved')
   for r in rets:
     okc, v = au.const(r.value)
     if okc and v is False:
